@@ -5,6 +5,11 @@ from replay import instr
 
 
 def scenarios(seed, tier, failed):
+    # a start-up that makes more handler calls than the step buffers hold (a 90-deep chain of initial transitions)
+    n = 90
+    yield {'kind': 'chart', 'parent': [-1] + list(range(n - 1)), 'init': [i + 1 for i in range(n - 1)] + [None],
+           'react': {str(i): {} for i in range(n)}, 'start': 0, 'events': ['S0'], 'host': 'HsmWithQueues', 'spy': True,
+           'exit_handled': [True] * n, 'entry_handled': [True] * n, 'live_spy': False, 'live_trace': False, 'timeout': 60}
     for k, sc in enumerate(instr.scenarios(seed, tier, failed, live=False)):
         yield sc
         if k % 7 == 3:
